@@ -196,7 +196,7 @@ def run(ctx, chk):
             slots = []
             okm = True
             for m in members:
-                if m.callee != spec["member"]:
+                if m.callee not in (spec["member"], "cbor_serialize"):   # the type's own serializer or the generic dispatcher
                     okm = False
                     break
                 slots.append(m.args[0])
@@ -220,6 +220,15 @@ def run(ctx, chk):
                       (child[0] == "call" and child[1] in ("cbor_move", "cbor_tag_item")))
         chk.ob("C03.framing", "cbor_serialize_tag path %d: tag head then the tagged item" % k, ok and okc, "%s:%d" % (g.file, g.line), fn=g.name,
                key="tag:%d" % k)
+
+    # ---- totality: every tree can be serialized
+    import serializer_rules as SR
+    chk.rule("C03.total", "a serializer (exported or unit-internal helper with the buffer/buffer_size convention) returns 0 only "
+                          "on a path where a nested encoder/serializer returned 0 or a comparison against buffer_size was decided; "
+                          "a successful result is the unmodified result of one such call or a sum with a positive summand - so "
+                          "every tree, including empty chunk lists and empty containers, has an encoding")
+    nt = SR.zero_only_on_short_buffer(chk, "C03.total", prog, eff, CS, encs)
+    chk.floor("C03.total", "serializer paths", nt, 60)
 
     # ---- mirror
     by_byte, pre, outs = tables.dispatch(prog, eff)
